@@ -38,6 +38,7 @@ package verifspec
 //@ func compiler/internal/dce.Selector.popPending
 //@ property C05
 //@   requires s != nil && len(s.pendingDecls) > 0
+//@   assigns s.pendingDecls
 //@   ensures result == old(s.pendingDecls)[len(old(s.pendingDecls)) - 1]
 //@   ensures len(s.pendingDecls) == len(old(s.pendingDecls)) - 1 && forall(k, 0, len(s.pendingDecls), s.pendingDecls[k] == old(s.pendingDecls)[k])
 
@@ -51,14 +52,20 @@ package verifspec
 //@ func compiler/internal/dce.Selector.AliveDecls
 //@ property C05
 //@   requires s != nil
+// representation invariant of the index: no nil entries
+//@   requires all(f, forall(i, 0, len(s.byFilter[f]), s.byFilter[f][i] != nil))
 //@   ghost b = len(s.pendingDecls)
 //@   after popPending: ghost b = min(b, len(s.pendingDecls))
+//@   loop 1 assigns s.pendingDecls
+//@   loop 1 invariant !isnil(dceSelection) && all(f, forall(i, 0, len(s.byFilter[f]), s.byFilter[f][i] != nil))
 //@   loop 1 invariant 0 <= b && b <= len(s.pendingDecls) && b <= len(old(s.pendingDecls))
 //@   loop 1 invariant forall(k, 0, b, s.pendingDecls[k] == old(s.pendingDecls)[k])
 //@   loop 1 invariant forall(k, b, len(old(s.pendingDecls)), has(dceSelection, old(s.pendingDecls)[k]))
+//@   loop 2 invariant !isnil(dceSelection) && all(f, forall(i, 0, len(s.byFilter[f]), s.byFilter[f][i] != nil))
 //@   loop 2 invariant 0 <= b && b <= len(s.pendingDecls) && b <= len(old(s.pendingDecls))
 //@   loop 2 invariant forall(k, 0, b, s.pendingDecls[k] == old(s.pendingDecls)[k])
 //@   loop 2 invariant forall(k, b, len(old(s.pendingDecls)), has(dceSelection, old(s.pendingDecls)[k]))
+//@   loop 3 invariant !isnil(dceSelection) && all(f, forall(i, 0, len(s.byFilter[f]), s.byFilter[f][i] != nil))
 //@   loop 3 invariant 0 <= b && b <= len(s.pendingDecls) && b <= len(old(s.pendingDecls))
 //@   loop 3 invariant forall(k, 0, b, s.pendingDecls[k] == old(s.pendingDecls)[k])
 //@   loop 3 invariant forall(k, b, len(old(s.pendingDecls)), has(dceSelection, old(s.pendingDecls)[k]))
